@@ -488,6 +488,10 @@ def types(a, env=None, func=False):
             audits(a.target, "types", int)
             if isinstance(t_i, TypeError):
                 pass  # Allow the error to pass through.
+            elif _types_loop_changes(env, var, int):
+                # The loop variable is a variable of an enclosing loop's body that had
+                # another type when that loop was entered.
+                audits(a.target, "types", _types_loop_error())
             elif t_i == range:
                 env[var] = int
                 # The body is typed once, so the types of the variables that exist when
